@@ -7,6 +7,7 @@ mod prng;
 mod proto;
 mod run;
 mod suites;
+mod wbgen;
 
 use run::{Ctx, Tier};
 use serde_json::json;
